@@ -1201,14 +1201,6 @@ namespace
             else
             {
                 // alignment above max_alignment
-                if (s->fam == F_LOWLEVEL && !ctx.allow_known)
-                {
-                    // exclusion of recorded finding F25: the low-level allocators ignore the
-                    // alignment argument, so an over-aligned request "succeeds"
-                    ++ctx.excluded;
-                    ++ci.noops;
-                    return;
-                }
                 if (mxal > ~size_t(0) / 2)
                 {
                     ++ci.noops;
@@ -2971,7 +2963,7 @@ namespace
             ctx.block_extra = P(6);
             ctx.n_param     = P(8);
             ctx.obj_above   = P(3) % 2;
-            ctx.allow_known = vf::allow_known("F25") || vf::allow_known("F26");
+            ctx.allow_known = vf::allow_known("F26");
 
             // a fault armed from the start (C03/C05): the k-th upstream allocation fails;
             // k==1 would hit the constructor, which the property does not cover (no allocator yet)
